@@ -1,6 +1,7 @@
 ------------------------------ MODULE DnsCache ------------------------------
-(* C38 — ZoneStore::resolve racing with ZoneStore::insert for ONE endpoint key
-   (/repo/iroh-dns-server/src/store.rs).
+(* C38 — ZoneStore::resolve racing with ZoneStore::insert (/repo/iroh-dns-server/src/store.rs).
+   Every lookup process r works on key RKey[r], every publish process p on key PKey[p]; store, cache and
+   acknowledgements are per key, the cache lock and the invalidation counter are shared by all keys.
 
    Versions 1..Len(TsOf) are the packets of that key in recency order (the order of
    SignedPacket::more_recent_than: timestamp, then payload bytes); TsOf[v] is the timestamp of
@@ -25,22 +26,29 @@
                   before PUpsert to the end of PInval
      "gen"        ZoneCache counts invalidations; RCheck remembers the count, RFill fills the
                   cache only if no invalidation happened in between (otherwise it answers
-                  from the packet it fetched and leaves the cache alone)
+                  from the packet it fetched and leaves the cache alone)      [the repair in /repo]
+     "genlast"    deviating refinement of "gen": the cache also remembers the key of the LAST
+                  invalidation, and RFill fills when the count is unchanged OR that key is another
+                  key - wrong as soon as publishes for two keys interleave (refuted by TLC):
+                  RGet(a)=old; publish(a) acked; publish(b) acked; RFill(a) caches old
    NoStaleAnswer is C38.  It holds for "lock" and "gen"; TLC refutes it for "aswritten":
      RCheck(r1) miss; RGet(r1) old; PUpsert new; PInval; PAck; RFill(r1) caches old; RCheck(r2) = old. *)
 EXTENDS Naturals, Sequences, FiniteSets, TLC, Json
-CONSTANTS Resolvers, Publishers,
+CONSTANTS Resolvers, Publishers, Keys,
+          RKey,       \* [Resolvers -> key]
+          PKey,       \* [Publishers -> key]
           VerOf,      \* [Publishers -> version]
           TsOf,       \* sequence: version -> timestamp
           Design, WarmCache
-VARIABLES store,      \* version in the persistent store
-          cache,      \* version in the zone cache, 0 = not cached
-          gen,        \* number of invalidations so far            (Design = "gen")
+VARIABLES store,      \* [Keys -> version in the persistent store]
+          cache,      \* [Keys -> version in the zone cache, 0 = not cached]
+          gen,        \* number of invalidations so far            (Design = "gen", "genlast")
+          lastInval,  \* key of the most recent invalidation       (Design = "genlast")
           lock,       \* holder of the cache lock, "free" if none  (Design = "lock")
           rpc, rgot, rseen, rstart, rans,
           ppc, pres, acked,
           word        \* the interleaving so far: sequence of [p |-> process, a |-> action]
-vars == <<store, cache, gen, lock, rpc, rgot, rseen, rstart, rans, ppc, pres, acked, word>>
+vars == <<store, cache, gen, lastInval, lock, rpc, rgot, rseen, rstart, rans, ppc, pres, acked, word>>
 
 Max(a, b) == IF a > b THEN a ELSE b
 LockOk(w) == Design # "lock" \/ lock \in {"free", w}
@@ -49,41 +57,47 @@ Take(w) == IF Design = "lock" THEN w ELSE lock
 Filled(c, got) == IF c # 0 /\ TsOf[c] > TsOf[got] THEN c ELSE got
 Step(p, a) == word' = Append(word, [p |-> p, a |-> a])
 
-Init == /\ store = 1 /\ cache = (IF WarmCache THEN 1 ELSE 0) /\ gen = 0 /\ lock = "free"
+FillAllowed(r) == CASE Design = "gen" -> gen = rseen[r]
+                     [] Design = "genlast" -> gen = rseen[r] \/ lastInval # RKey[r]
+                     [] OTHER -> TRUE
+
+Init == /\ store = [k \in Keys |-> 1] /\ cache = [k \in Keys |-> IF WarmCache THEN 1 ELSE 0] /\ gen = 0
+        /\ lastInval = "none" /\ lock = "free"
         /\ rpc = [r \in Resolvers |-> "idle"] /\ rgot = [r \in Resolvers |-> 0]
         /\ rseen = [r \in Resolvers |-> 0] /\ rstart = [r \in Resolvers |-> 0]
         /\ rans = [r \in Resolvers |-> 0]
         /\ ppc = [p \in Publishers |-> "idle"] /\ pres = [p \in Publishers |-> FALSE]
-        /\ acked = 1 /\ word = <<>>
+        /\ acked = [k \in Keys |-> 1] /\ word = <<>>
 
 RCheck(r) == /\ rpc[r] = "idle" /\ LockOk(r)
-             /\ rstart' = [rstart EXCEPT ![r] = acked]       \* newest acknowledged publish when the lookup starts
-             /\ IF cache # 0
-                  THEN rans' = [rans EXCEPT ![r] = cache] /\ rpc' = [rpc EXCEPT ![r] = "done"] /\ UNCHANGED <<lock, rseen>>
+             /\ rstart' = [rstart EXCEPT ![r] = acked[RKey[r]]]   \* newest acknowledged publish of its key when the lookup starts
+             /\ IF cache[RKey[r]] # 0
+                  THEN rans' = [rans EXCEPT ![r] = cache[RKey[r]]] /\ rpc' = [rpc EXCEPT ![r] = "done"] /\ UNCHANGED <<lock, rseen>>
                   ELSE rpc' = [rpc EXCEPT ![r] = "miss"] /\ rseen' = [rseen EXCEPT ![r] = gen]
                        /\ lock' = Take(r) /\ UNCHANGED rans
-             /\ UNCHANGED <<store, cache, gen, rgot, ppc, pres, acked>> /\ Step(r, "RCheck")
+             /\ UNCHANGED <<store, cache, gen, lastInval, rgot, ppc, pres, acked>> /\ Step(r, "RCheck")
 RGet(r) == /\ rpc[r] = "miss"
-           /\ rgot' = [rgot EXCEPT ![r] = store] /\ rpc' = [rpc EXCEPT ![r] = "got"]
-           /\ UNCHANGED <<store, cache, gen, lock, rseen, rstart, rans, ppc, pres, acked>> /\ Step(r, "RGet")
+           /\ rgot' = [rgot EXCEPT ![r] = store[RKey[r]]] /\ rpc' = [rpc EXCEPT ![r] = "got"]
+           /\ UNCHANGED <<store, cache, gen, lastInval, lock, rseen, rstart, rans, ppc, pres, acked>> /\ Step(r, "RGet")
 RFill(r) == /\ rpc[r] = "got" /\ LockOk(r)
-            /\ IF Design = "gen" /\ gen # rseen[r]
+            /\ IF ~FillAllowed(r)
                  THEN UNCHANGED cache /\ rans' = [rans EXCEPT ![r] = rgot[r]]
-                 ELSE cache' = Filled(cache, rgot[r]) /\ rans' = [rans EXCEPT ![r] = cache']
+                 ELSE cache' = [cache EXCEPT ![RKey[r]] = Filled(@, rgot[r])] /\ rans' = [rans EXCEPT ![r] = cache'[RKey[r]]]
             /\ rpc' = [rpc EXCEPT ![r] = "done"] /\ lock' = "free"
-            /\ UNCHANGED <<store, gen, rgot, rseen, rstart, ppc, pres, acked>> /\ Step(r, "RFill")
+            /\ UNCHANGED <<store, gen, lastInval, rgot, rseen, rstart, ppc, pres, acked>> /\ Step(r, "RFill")
 
 PUpsert(p) == /\ ppc[p] = "idle" /\ LockOk(p)
-              /\ IF store > VerOf[p]                         \* existing.more_recent_than(packet)
+              /\ IF store[PKey[p]] > VerOf[p]                 \* existing.more_recent_than(packet)
                    THEN ppc' = [ppc EXCEPT ![p] = "done"] /\ UNCHANGED <<store, lock>>
-                   ELSE store' = VerOf[p] /\ ppc' = [ppc EXCEPT ![p] = "upserted"] /\ lock' = Take(p)
-              /\ UNCHANGED <<cache, gen, rpc, rgot, rseen, rstart, rans, pres, acked>> /\ Step(p, "PUpsert")
+                   ELSE store' = [store EXCEPT ![PKey[p]] = VerOf[p]] /\ ppc' = [ppc EXCEPT ![p] = "upserted"] /\ lock' = Take(p)
+              /\ UNCHANGED <<cache, gen, lastInval, rpc, rgot, rseen, rstart, rans, pres, acked>> /\ Step(p, "PUpsert")
 PInval(p) == /\ ppc[p] = "upserted" /\ LockOk(p)
-             /\ cache' = 0 /\ gen' = gen + 1 /\ lock' = "free" /\ ppc' = [ppc EXCEPT ![p] = "invalidated"]
+             /\ cache' = [cache EXCEPT ![PKey[p]] = 0] /\ gen' = gen + 1 /\ lastInval' = PKey[p] /\ lock' = "free"
+             /\ ppc' = [ppc EXCEPT ![p] = "invalidated"]
              /\ UNCHANGED <<store, rpc, rgot, rseen, rstart, rans, pres, acked>> /\ Step(p, "PInval")
 PAck(p) == /\ ppc[p] = "invalidated"
-           /\ acked' = Max(acked, VerOf[p]) /\ pres' = [pres EXCEPT ![p] = TRUE] /\ ppc' = [ppc EXCEPT ![p] = "done"]
-           /\ UNCHANGED <<store, cache, gen, lock, rpc, rgot, rseen, rstart, rans>> /\ Step(p, "PAck")
+           /\ acked' = [acked EXCEPT ![PKey[p]] = Max(@, VerOf[p])] /\ pres' = [pres EXCEPT ![p] = TRUE] /\ ppc' = [ppc EXCEPT ![p] = "done"]
+           /\ UNCHANGED <<store, cache, gen, lastInval, lock, rpc, rgot, rseen, rstart, rans>> /\ Step(p, "PAck")
 
 Next == \/ \E r \in Resolvers : RCheck(r)
         \/ \E r \in Resolvers : RGet(r)
@@ -101,17 +115,17 @@ Stale(r) == rpc[r] = "done" /\ Older(rans[r], rstart[r])
 NoStaleAnswer == \A r \in Resolvers : ~Stale(r)
 \* whenever nothing is in flight the cache holds nothing but the stored version
 QuiescentCoherent == (\A r \in Resolvers : rpc[r] \in {"idle", "done"}) /\ (\A p \in Publishers : ppc[p] \in {"idle", "done"})
-                        => cache \in {0, store}
+                        => \A k \in Keys : cache[k] \in {0, store[k]}
 \* the store only moves forward, and an acknowledged version is never newer than the stored one
-StoreMonotone == [][store' >= store]_vars
-AckedIsStored == acked <= store
+StoreMonotone == [][\A k \in Keys : store'[k] >= store[k]]_vars
+AckedIsStored == \A k \in Keys : acked[k] <= store[k]
 
 \* exhaustive configurations identify states that differ only in the path taken
-MCView == <<store, cache, gen, lock, rpc, rgot, rseen, rstart, rans, ppc, pres, acked>>
+MCView == <<store, cache, gen, lastInval, lock, rpc, rgot, rseen, rstart, rans, ppc, pres, acked>>
 
 AllDone == (\A r \in Resolvers : rpc[r] = "done") /\ (\A p \in Publishers : ppc[p] = "done")
 \* generator: every complete interleaving with the answers / flags the model predicts
 Emit == AllDone => PrintT(<<"REPLAY", ToJson([word |-> word, rans |-> rans, rstart |-> rstart, pres |-> pres,
                                                stale |-> ~NoStaleAnswer, warm |-> WarmCache, design |-> Design,
-                                               verof |-> VerOf, tsof |-> TsOf])>>)
+                                               verof |-> VerOf, tsof |-> TsOf, rkey |-> RKey, pkey |-> PKey])>>)
 =============================================================================
